@@ -48,6 +48,41 @@ extern int carquet_zstd_decompress(
     uint8_t* dst, size_t dst_capacity, size_t* dst_size);
 
 /* ============================================================================
+ * Retained page buffers (BYTE_ARRAY values point into them)
+ * ============================================================================
+ *
+ * One read call may cross a page boundary. The byte arrays it already returned
+ * from the previous page must stay valid until the next call on this reader, so
+ * the previous buffer is parked instead of freed.
+ */
+
+void carquet_column_retain_page_data(carquet_column_reader_t* reader, uint8_t* page_data) {
+    if (reader->page_data_for_values) {
+        if (reader->num_retired_page_data == reader->retired_page_data_capacity) {
+            int32_t new_cap = reader->retired_page_data_capacity ? reader->retired_page_data_capacity * 2 : 4;
+            uint8_t** grown = realloc(reader->retired_page_data, (size_t)new_cap * sizeof(uint8_t*));
+            if (grown) {
+                reader->retired_page_data = grown;
+                reader->retired_page_data_capacity = new_cap;
+            }
+        }
+        if (reader->num_retired_page_data < reader->retired_page_data_capacity) {
+            reader->retired_page_data[reader->num_retired_page_data++] = reader->page_data_for_values;
+        } else {
+            free(reader->page_data_for_values);  /* out of memory: previous behaviour */
+        }
+    }
+    reader->page_data_for_values = page_data;
+}
+
+void carquet_column_release_retired_pages(carquet_column_reader_t* reader) {
+    for (int32_t i = 0; i < reader->num_retired_page_data; i++) {
+        free(reader->retired_page_data[i]);
+    }
+    reader->num_retired_page_data = 0;
+}
+
+/* ============================================================================
  * Decompression
  * ============================================================================
  */
@@ -932,8 +967,7 @@ static carquet_status_t load_next_page_mmap(
      * which persists for the reader's lifetime, so no retention needed. */
     if (decompressed && reader->type == CARQUET_PHYSICAL_BYTE_ARRAY &&
         page_header.data_page_header.encoding == CARQUET_ENCODING_PLAIN) {
-        free(reader->page_data_for_values);
-        reader->page_data_for_values = decompressed;
+        carquet_column_retain_page_data(reader, decompressed);
     } else {
         free(decompressed);
     }
@@ -1116,8 +1150,7 @@ static carquet_status_t load_next_page_fread(
                    page_header.data_page_header.encoding == CARQUET_ENCODING_PLAIN);
 
     if (retain) {
-        free(reader->page_data_for_values);
-        reader->page_data_for_values = page_data;
+        carquet_column_retain_page_data(reader, page_data);
         /* Free compressed buffer only if it's a separate allocation */
         if (compressed && compressed != page_data) {
             free(compressed);
